@@ -19,7 +19,7 @@ pub fn spec(tier: Tier) -> RunSpec {
 (non-blocking tasks: instant or long = k yields; a rendezvous group of width N that completes only if N tasks are inside simultaneously; one long task followed by a group of width N-1), submitted all at once or with yields in between, \
 each configuration explored under 300 (quick) / 2000 (thorough) schedules of the seeded random scheduler or PCT with depth 1..4 - every lock, unlock, send, recv, spawn and yield is a scheduling point, a superset of the property's four points. \
 Oracle per execution: every task counter is exactly 1 after the pool is dropped and all workers have returned; every rendezvous completes (shuttle reports the blocked-task set as a deadlock otherwise - a logical verdict, no timer). \
-section native (this harness): the pool on std primitives with seeded yields / micro-sleeps at the rws_verif event points (locked, received, finished, submit); asserts counters == 1 and trace well-formedness. \
+sections schedules-enumerated-completely / schedules-dfs-prefix (shuttle's depth-first scheduler on eleven small configurations x both submit patterns): a configuration whose enumeration ends below the cap (150 000 quick / 3 000 000 thorough executions) is decided for every schedule - all 1-worker pools with up to 2 tasks (5 to 128 860 schedules each) and the empty 2-worker pool; the 2- and 3-worker configurations contribute a systematic prefix of their schedule tree. section native (this harness): the pool on std primitives with seeded yields / micro-sleeps at the rws_verif event points (locked, received, finished, submit); asserts counters == 1 and trace well-formedness. \
 evaluations = schedules executed; non-trivial = N >= 2, T >= N and at least one rendezvous group; distinct by (N, task list, submit pattern, scheduler, scheduler seed) - each such tuple stands for its 300 / 2000 schedules.",
         &["shuttle's primitives are API-compatible models of std's; the cfg(rws_verif_shuttle) hook adds a break when the job channel is closed so that executions terminate",
           "task lists are restricted to those a correct FIFO pool of N workers must complete (full groups are contiguous)",
